@@ -263,6 +263,13 @@ Definition pin_vpr : pinref := PTop (s2l "__vpr__unconn3") 0.
 Definition pin_i0_in1 : pinref := PInst 0 (s2l "in_1") 0.
 Definition pin_i1_out : pinref := PInst 1 (s2l "out") 0.
 Definition pin_i2_I : pinref := PInst 2 (s2l "I") 0.
+(* an inout port with the .outputs line first (before the repair of parse_input_ports: AssertionError) and the
+   same file with the .inputs line first *)
+Definition doc_inout_outputs_first : doc := D [ ".model top"; ".outputs io y"; ".inputs io a"; ".subckt AND2 A=io B=a O=y"; ".end" ].
+Definition doc_inout_inputs_first : doc := D [ ".model top"; ".inputs io a"; ".outputs io y"; ".subckt AND2 A=io B=a O=y"; ".end" ].
+Definition pin_io : pinref := PTop (s2l "io") 0.
+Definition pin_i0_A : pinref := PInst 0 (s2l "A") 0.
+Definition nm_io : str := s2l "io".
 (* expected values of the repaired header-gap / comment-in-info / any-order examples *)
 Definition gap_ports : list (str * dir) := [(s2l "a", DIn); (s2l "y", DOut)].
 Definition of_ports : list (str * dir) := [(s2l "y", DOut); (s2l "a", DIn)].
@@ -427,4 +434,30 @@ Proof.
   destruct (gap_insertion d1 d2 [] ss (or_introl eq_refl) H1) as [s1 [s2 [E1 E2]]].
   change (s1 ++ gap_stmts [] ++ s2) with (s1 ++ s2) in E2. rewrite <- E1 in E2.
   exact (eq_trans (f_equal (fun r => bind r elab_stmts) E2) H2).
+Qed.
+
+
+(* REPAIRED (finding inout-outputs-first): a port named in an .outputs line and in a later .inputs line is an INOUT
+   port whose pin stays on the net it was put on, exactly as with the .inputs line first: same direction, same
+   cables (as sets of pins per wire), the port pin on the wire of the gate's pin A *)
+Definition dirs_of (m : model) : list (str * dir) := map (fun q => (p_name q, p_dir q)) (m_ports m).
+Lemma inout_outputs_first_repaired :
+  exists n m n' m', elab doc_inout_outputs_first = Ok n /\ find_model nm_top (b_models n) = Some m /\
+    elab doc_inout_inputs_first = Ok n' /\ find_model nm_top (b_models n') = Some m' /\
+    port_dir nm_io m = DInout /\ port_dir nm_io m' = DInout /\
+    (forall x, In x (dirs_of m) <-> In x (dirs_of m')) /\
+    same_wire m pin_io pin_i0_A /\ same_wire m' pin_io pin_i0_A /\
+    length (cable_pins (m_cables m)) = length (cable_pins (m_cables m')).
+Proof.
+  remember (elab doc_inout_outputs_first) as r eqn:Er. vm_compute in Er. subst r.
+  remember (elab doc_inout_inputs_first) as r' eqn:Er'. vm_compute in Er'. subst r'.
+  eexists. eexists. eexists. eexists. split; [reflexivity|]. split; [vm_compute; reflexivity|].
+  split; [reflexivity|]. split; [vm_compute; reflexivity|].
+  split; [vm_compute; reflexivity|]. split; [vm_compute; reflexivity|]. split; [|split; [|split]].
+  - intro x. vm_compute. tauto.
+  - eexists. eexists. split; [left; reflexivity|]. split; [left; reflexivity|]. cbn. split; [left; reflexivity|].
+    right. left. reflexivity.
+  - eexists. eexists. split; [left; reflexivity|]. split; [left; reflexivity|]. cbn. split; [left; reflexivity|].
+    right. left. reflexivity.
+  - vm_compute. reflexivity.
 Qed.
